@@ -15,7 +15,8 @@ kind of refusal).  The driver writes the chunks, opens the file with ELFFile and
   * the same stream with relocate_dwarf_sections=False with the section's original bytes.
 RELR cases (modes relr / relrset) carry an image with one SHT_RELR section and the address sequence the
 RELR machine yields; compared with RelrRelocationSection.iter_relocations / num_relocations /
-get_relocation.
+get_relocation.  Dynamic cases (mode dyn) carry an ET_DYN image whose REL / RELA / JMPREL / RELR tables are named by the
+dynamic tags; compared with get_relocation_tables() of the DynamicSection and of the DynamicSegment.
 
 T: for every relocatable corpus object the unrelocated and the relocated stream of every loaded debug
 section are diffed; per cluster of relocations (overlapping 8-byte windows at r_offset) one event
@@ -232,6 +233,48 @@ def _relr(run, case, ef, bad):
             break
 
 
+# ------------------------------------------------------------------------------------------ dynamic tables
+def _dyn(run, case, ef, bad):
+    from elftools.elf.dynamic import DynamicSection, DynamicSegment
+    from elftools.elf.relocation import RelocationTable, RelrRelocationTable
+    v = case['view']
+    mips64 = case['cls'] == 64 and case['machine'] == 8
+    holders = [('section', ef.get_section_by_name('.dynamic'), DynamicSection), ('segment', ef.get_segment(1), DynamicSegment)]
+    for hname, h, cls in holders:
+        if not isinstance(h, cls):
+            bad('dyn.class', cls.__name__, type(h).__name__, field=hname)
+            continue
+        try:
+            tabs = h.get_relocation_tables()
+        except Exception as ex:
+            bad('dyn.get_relocation_tables', 'tables', 'exc:%s:%s' % (type(ex).__name__, ex), field=hname)
+            continue
+        if sorted(tabs) != sorted(v['present']):
+            bad('dyn.present', sorted(v['present']), sorted(tabs), field=hname)
+            continue
+        for name in sorted(tabs):
+            t = tabs[name]
+            if name == 'RELR':
+                want = [_u(a) for a in v['RELR']]
+                ok = isinstance(t, RelrRelocationTable)
+                got = ok and {'iter': [r['r_offset'] for r in t.iter_relocations()], 'num': t.num_relocations(),
+                              'get': [t.get_relocation(i)['r_offset'] for i in range(len(want))]}
+                exp = {'iter': want, 'num': len(want), 'get': want}
+            else:
+                rela = {'REL': False, 'RELA': True, 'JMPREL': v['pltrela']}[name]
+                want = [dict(_want_entry(e, mips64, rela), is_RELA=rela) for e in v[name]]
+                ok = isinstance(t, RelocationTable)
+                got = ok and {'is_RELA': t.is_RELA(), 'num': t.num_relocations(),
+                              'iter': [_got_entry(r, w, mips64, rela) for r, w in zip(t.iter_relocations(), want)],
+                              'get': [_got_entry(t.get_relocation(i), want[i], mips64, rela) for i in reversed(range(len(want)))][::-1]}
+                exp = {'is_RELA': rela, 'num': len(want), 'iter': want, 'get': want}
+            if not ok:
+                bad('dyn.table_class', 'relocation table', type(t).__name__, field='%s:%s' % (hname, name))
+            elif got != exp:
+                k = next(k for k in exp if got[k] != exp[k])
+                bad('dyn.' + k, exp[k], got[k], field='%s:%s' % (hname, name))
+
+
 # ------------------------------------------------------------------------------------------ T
 def _corpus():
     out = []
@@ -268,9 +311,16 @@ def _record(run, path, events, info, budget):
         return
     names = [s.name for s in secs]
     try:
-        rel = ELFFile(io.BytesIO(raw)).get_dwarf_info(relocate_dwarf_sections=True)
         unrel = ELFFile(io.BytesIO(raw)).get_dwarf_info(relocate_dwarf_sections=False)
     except Exception as ex:
+        info['skipped'].append('%s: %s' % (base, type(ex).__name__))
+        return
+    try:
+        rel = ELFFile(io.BytesIO(raw)).get_dwarf_info(relocate_dwarf_sections=True)
+    except Exception as ex:
+        # the object loads without relocation: with relocation it loads too, or is refused with the relocation error
+        if type(ex).__name__ != 'ELFRelocationError':
+            run.mismatch('trace.load', base, {'file': base}, 'relocated sections or ELFRelocationError', 'exc:%s:%s' % (type(ex).__name__, ex))
         info['skipped'].append('%s: %s' % (base, type(ex).__name__))
         return
     mach = ef.header['e_machine']
@@ -316,8 +366,7 @@ def _record(run, path, events, info, budget):
         step = max(1, len(clusters) // budget) if budget else 1
         for ci, (members, hi) in enumerate(clusters):
             lo = relocs[members[0]][0]
-            for x in range(lo, hi):
-                covered[x] = 1
+            covered[lo:hi] = b'\x01' * (hi - lo)
             if ci % step:
                 info['sampled_out'] += len(members)
                 continue
@@ -326,20 +375,33 @@ def _record(run, path, events, info, budget):
             events.append(dict(dummy, k='reloc', tid='%s:%s@%d' % (base, a.name, lo), m=mcode, rela=bool(rs.is_RELA()), lo=lo,
                                before=list(before[lo:hi]), after=list(after[lo:hi]), chain=chain))
             info['relocs'] += len(members)
-        rest = sum(1 for x in range(len(before)) if not covered[x] and before[x] != after[x])
+        rest, x, n = 0, 0, len(before)
+        while x < n:                                   # gaps between clusters, compared slice-wise
+            if covered[x]:
+                x += 1
+                continue
+            y = covered.find(1, x)
+            y = n if y < 0 else y
+            if before[x:y] != after[x:y]:
+                rest += sum(1 for z in range(x, y) if before[z] != after[z])
+            x = y
         events.append(dict(dummy, k='rest', tid='%s:%s' % (base, a.name), m=mcode, rest=rest))
         info['sections'] += 1
     info['files'].append(base)
 
 
 def _trace(run):
+    import time
+    t_rec = time.time()
     events = []
     info = {'relr': 0, 'relocs': 0, 'sections': 0, 'files': [], 'skipped': [], 'ambiguous': [], 'sampled_out': 0}
-    budget = 400 if run.tier == 'quick' else 0
+    budget = 1000 if run.tier == 'quick' else 0
     for p in _corpus():
         _record(run, p, events, info, budget)
     if not events:
         raise core.MachineryError('no corpus relocation events recorded')
+    import time
+    run.extra.setdefault('timing_s', {})['record_t'] = round(time.time() - t_rec, 1)
     trace = run.trace_file('relocs', events)
     res = run.tlc('RelocTrace', 'RelocTrace', env={'TRACE': trace}, workers=1, timeout=3000)
     verdicts = list(run.cases(res.out))
@@ -365,12 +427,36 @@ def _trace(run):
 
 
 # ------------------------------------------------------------------------------------------ driver
+def _assembled(lines):
+    """Whole cases as they come; the big apply cases arrive in parts (see Reloc!EmitParts) and are put together by id
+    once the stream is exhausted."""
+    parts = {}
+    for c in lines:
+        if 'part' in c:
+            parts.setdefault(c['id'], {}).setdefault(c['part'], {})[c['i']] = c['v']
+        else:
+            yield c
+    for cid, p in sorted(parts.items()):
+        if 'head' not in p:
+            raise core.MachineryError('case %s: head part missing' % cid)
+        h = p['head'][1]
+        ch, eg = p.get('chunks', {}), p.get('entries', {})
+        if sorted(ch) != list(range(1, h['nchunks'] + 1)) or sorted(eg) != list(range(1, h['ngroups'] + 1)) \
+                or 'orig' not in p or 'bytes' not in p:
+            raise core.MachineryError('case %s: parts missing' % cid)
+        case = dict(h)
+        case['chunks'] = [ch[i] for i in sorted(ch)]
+        case['entries'] = [e for i in sorted(eg) for e in eg[i]]
+        case['orig'], case['bytes'] = p['orig'][1], p['bytes'][1]
+        yield case
+
+
 def check(run):
     from elftools.elf.elffile import ELFFile
     run.rule = ('G cases = finished states of the Reloc machine: decode tables (<= MaxEntries entries out of 6 per class x 6 '
                 'class/order/machine x REL/RELA), apply images (one per table row x flavour x class x order x r_addend: 49 '
                 'relocations = 7 in-place x 7 symbol values), refusal images (unsupported type / flavour / symbol index), RELR '
-                'streams and RELR encodings of address sets; T events = clusters of corpus relocations; non-trivial = table '
+                'streams, RELR encodings of address sets, images with dynamic-tag tables; T events = clusters of corpus relocations; non-trivial = table '
                 'with >= 1 entry or RELR stream with >= 1 bitmap; distinct by emitted image')
     run.assumptions += ['relocated fields lie inside the section; sections of a relocatable object have address 0',
                         'symbols are absolute STT_NOTYPE symbols (no ARM T bit); MIPS64 composed relocations are not applied',
@@ -380,9 +466,9 @@ def check(run):
     cfg = 'Reloc_quick' if run.tier == 'quick' else 'Reloc_thorough'
     res = run.tlc('Reloc', cfg)
     seen = set()
-    stats = {'applied': 0, 'refused': 0, 'decode_entries': 0, 'relr_addresses': 0}
+    stats = {'applied': 0, 'refused': 0, 'decode_entries': 0, 'relr_addresses': 0, 'dynamic_tables': 0}
     bymode = {}
-    for case in run.cases(res.out):
+    for case in _assembled(run.cases(res.out)):
         mode = case['mode']
         key = core.digest([mode, case['chunks']])
         if key in seen:
@@ -390,7 +476,7 @@ def check(run):
         seen.add(key)
         data = concretise(case['chunks'])
         table = mode in ('decode', 'apply', 'errors')
-        nontriv = bool(case['entries']) if table else any(w[0] % 2 for w in case['words'])
+        nontriv = bool(case['entries']) if table else bool(case['view']['present']) if mode == 'dyn' else any(w[0] % 2 for w in case['words'])
         run.count(key, nontrivial=nontriv)
         bymode[mode] = bymode.get(mode, 0) + 1
         base_tag = '%d%s' % (case['cls'], 'le' if case['le'] else 'be')
@@ -416,6 +502,9 @@ def check(run):
                 stats['decode_entries'] += len(case['entries'])
                 if mode != 'decode':
                     _apply(run, case, data, ELFFile, bad, stats)
+            elif mode == 'dyn':
+                _dyn(run, case, ef, bad)
+                stats['dynamic_tables'] += 2 * len(case['view']['present'])
             else:
                 _relr(run, case, ef, bad)
                 stats['relr_addresses'] += len(case['addrs'])
@@ -429,10 +518,12 @@ def check(run):
             if table:
                 smp.update({'machine': MACH.get(case['machine']), 'row': case['sub'], 'rela': case['rela'], 'entries': case['entries'][:2],
                             'fields': case['fields'][:2], 'orig': case['orig'][:22], 'expected_bytes': case['bytes'][:22], 'err': case['err']})
-            else:
+            elif mode != 'dyn':
                 smp.update({'words': case['words'], 'addrs': case['addrs']})
             run.samples.append(smp)
     run.validated = run.evaluations
+    import time
+    run.extra['timing_s'] = {'tlc_g': round(res.wall, 1), 'replay_g': round(time.time() - run.t0 - res.wall, 1)}
     run.extra['cases_by_mode'] = bymode
     run.extra['g_totals'] = stats
     if not bymode:
